@@ -11,14 +11,20 @@ DECLS = {
                    # the sort as argument sort, parameter sort, in a recursive definition (fix F43)
                    '(declare-fun fa (Int) Bool)', '(define-fun ga ((xa Real)) Bool true)', '(define-fun-rec ra ((xa Int)) Bool true)',
                    # ... in a quantifier binder, define-const, declare-var (F43b)
-                   '(assert (forall ((qa Int)) true))', '(define-const ca Int 5)', '(declare-var va Real)'],
+                   '(assert (forall ((qa Int)) true))', '(define-const ca Int 5)', '(declare-var va Real)',
+                   # ... spelled with bars (|Int| is Int), with a comment next to it (comments are leaves of ddSMT's tree)
+                   '(declare-const xq |Int|)', '(declare-fun fq (|Real|) Bool)', '(declare-const xc ; an integer\n Int)'],
     'bv': ['(declare-const b (_ BitVec 8))', '(declare-fun c () (_ BitVec 4))', '(define-fun d () (_ BitVec 2) #b01)',
-           '(declare-fun fb ((_ BitVec 8)) Bool)', '(define-fun gb ((xb (_ BitVec 3))) Bool true)', '(assert (exists ((qb (_ BitVec 8))) true))'],
-    'datatypes': ['(declare-datatype D ((k)))', '(declare-datatypes ((E 0)) (((m))))', '(declare-codatatypes ((S9 0)) (((c9 (s9 S9)))))'],
+           '(declare-fun fb ((_ BitVec 8)) Bool)', '(define-fun gb ((xb (_ BitVec 3))) Bool true)', '(assert (exists ((qb (_ BitVec 8))) true))',
+           '(declare-const bc (_ BitVec ; width\n 8))', '(declare-const bd (_ ; c\n BitVec 8))', '(declare-const bq (_ |BitVec| 8))'],
+    'datatypes': ['(declare-datatype D ((k)))', '(declare-datatypes ((E 0)) (((m))))', '(declare-codatatypes ((S9 0)) (((c9 (s9 S9)))))',
+                  '(; c\n declare-datatypes ((Lc 0)) (((nilc) (consc (hdc Lc)))))'],
     'fp': ['(declare-const f Float32)', '(declare-const r RoundingMode)', '(declare-fun g () (_ FloatingPoint 5 11))',
-           '(declare-fun ff ((_ FloatingPoint 8 24)) Bool)', '(define-fun gf ((xf RoundingMode)) Bool true)'],
+           '(declare-fun ff ((_ FloatingPoint 8 24)) Bool)', '(define-fun gf ((xf RoundingMode)) Bool true)',
+           '(declare-const fc (_ FloatingPoint 8 24 ; single\n))', '(declare-const rq |RoundingMode|)', '(declare-const fq |Float32|)'],
     'strings': ['(declare-const s String)', '(declare-fun t () (Seq Int2))', '(define-fun u () String "a")',
-                '(declare-fun fs (String) Bool)', '(declare-const rl RegLan)', '(define-fun gs ((xs (Seq Int2))) Bool true)'],
+                '(declare-fun fs (String) Bool)', '(declare-const rl RegLan)', '(define-fun gs ((xs (Seq Int2))) Bool true)',
+                '(declare-const sc ( ; c\n Seq Bool))', '(declare-const sq |String|)'],
 }
 MIXED = [('(declare-const m1 (Array Int (_ BitVec 8)))', {'arithmetic', 'bv'}), ('(declare-fun m2 (Int String) (_ BitVec 4))', {'arithmetic', 'strings', 'bv'}),
          ('(declare-const m3 (Seq Int))', {'arithmetic', 'strings'}), ('(declare-fun m4 (RoundingMode (_ BitVec 3)) Real)', {'fp', 'bv', 'arithmetic'}),
@@ -45,7 +51,8 @@ def run(ctx):
                 'random sequences up to length 8, each with an input that does or does not declare symbols of each detectable theory; '
                 'non-trivial = the enabled set differs from the default; distinct = distinct (option sequence, declared theories)')
     translated = translate_step(ctx)
-    ctx.proof = common.prove('C14')
+    # Props/RelevanceProps.v composes the relevance model with the theorems of Props/C14.v (so it imports that file)
+    ctx.proof = common.prove('C14', also=['RelevanceProps'])
     ok, log = common.build_driver()
     if not ok:
         raise common.BuildError(log[-3000:])
@@ -198,6 +205,36 @@ def run(ctx):
         ctx.extra['vm_compute_shard'] = dict(cases=len(shard), differences_vs_extracted=bad)
         if bad:
             ctx.disagree('extraction vs vm_compute', differences=bad)
+    # TIE-C for Model/Relevance.v (dispatch 150-153): the relevance tests of auto_detect_theories on generated scripts, on every
+    # sort in every sort position (with comments and quoted spellings) and on a malformed corpus
+    import relcorr
+    import smtgen
+    rtexts = [smtgen.script_text(smtgen.gen_script(rng, nasserts=rng.choice([1, 2, 3]), depth=2)[1]) for _ in range(200 if ctx.thorough else 30)]
+    relcorr.run(ctx, impl, common.Model(), rng, rtexts, nfuzz=600 if ctx.thorough else 100)
+    # TIE-H: "every enabled mutator is scheduled ... in ddmin": in real runs EVERY round of the ddmin main loop goes through the
+    # whole pass lists (a run in which a mutator gets its candidate only after a later mutator has succeeded needs a second round)
+    import e2e
+    head = '(declare-const a Bool)\n(declare-const b Bool)\n(declare-const c Bool)\n'
+    forms = ['(assert (and a (not (not (and b c)))))\n', '(assert (and a (and b c)))\n', '(assert (and a b c))\n']
+    rjobs = [dict(text=head + forms[0], opts=['--strategy', 'ddmin', '-j', '1'], cmd=[e2e.TOKPRED, 'set'] + [e2e.sh_digest(head + f) for f in forms], env={}, timeout=240),
+             dict(text=head + forms[0], opts=['--strategy', 'hybrid', '-j', '2'], cmd=[e2e.TOKPRED, 'set'] + [e2e.sh_digest(head + f) for f in forms], env={}, timeout=240)]
+    if ctx.thorough:
+        import e2ejobs
+        rjobs += [e2ejobs.job(rng, strategy='ddmin', jobs=rng.choice([1, 3]), size='small') for _ in range(6)]
+    for j, r in zip(rjobs, e2e.run_many(rjobs)):
+        rounds = len([e for e in r.ev('taskgen') if e.get('first') and e.get('mid') == 1000])
+        ctx.case(['ddmin rounds', j['text'], j['opts']], rounds >= 2)
+        ctx.count('rounds of the ddmin main loop observed', rounds)
+        if r.hung or r.rc != 0:
+            ctx.notes.append(f'ddmin run ended abnormally (rc={r.rc}, hung={r.hung})')
+            continue
+        for msg in e2e.analyse(r)['C14']:
+            ctx.violation('impl-violation', input=j['text'], options=j['opts'], command=j['cmd'], observed=msg,
+                          expected='every round of the ddmin main loop schedules every enabled mutator of the pass lists')
+        if j['cmd'][1] == 'set' and r.outtext is not None and e2e.sh_digest(r.outtext) != e2e.sh_digest(head + forms[2]):
+            ctx.violation('impl-violation', input=j['text'], options=j['opts'], command=j['cmd'], output=r.outtext,
+                          observed='the run stopped before the simplification that only a second round can make',
+                          expected='(assert (and a b c)): merging with the child becomes possible once the double negation is gone')
     ctx.assumptions += ['exact option strings (argparse prefix abbreviations are not modelled)',
                         '"declares something of a theory" = a declaration or definition command in which a sort of the theory occurs (as sort of the symbol, argument sort, parameter sort or field sort), or a datatype declaration']
 
